@@ -165,6 +165,34 @@ def _repair_loop(name):
     return LoopSpec(inv, mods, var, name)
 
 
+def _top_up_loop():
+    """LockingDeque.__wake_up: `while len(deque) > qsize(): put(block=False)` -- tokens catch up with the items."""
+    def inv(it, env):
+        c = it.c
+        d, q = _ld_parts(it, env['self'])
+        T, n, M = c.hget(q, 'qsize'), B.seq_len(it, d), c.hget(q, 'maxsize')
+        T0 = env['$T_entry']
+        return [('tokens-within-capacity', z3.And(T >= 1, T <= M)), ('len-within-capacity', z3.And(n >= 0, n <= M)),
+                ('tokens-only-added-while-items-were-uncovered', z3.And(T >= T0, z3.Or(T == T0, T <= n)))]
+
+    def on_entry(it, env):
+        c = it.c
+        d, q = _ld_parts(it, env['self'])
+        env['$T_entry'] = c.hget(q, 'qsize')
+
+    def mods(it, env):
+        d, q = _ld_parts(it, env['self'])
+        return [(q, 'qsize'), (q, 'unfinished')]
+
+    def var(it, env):
+        c = it.c
+        d, q = _ld_parts(it, env['self'])
+        return B.seq_len(it, d) - c.hget(q, 'qsize')
+    sp = LoopSpec(inv, mods, var, 'wake-up-top-up')
+    sp.on_entry = on_entry
+    return sp
+
+
 def _clear_loop():
     def inv(it, env):
         c = it.c
@@ -226,6 +254,7 @@ def install(world):
     for m, f in LD_CONTRACTS.items():
         p = 'activeobject.LockingDeque.' + m
         world.contracts[p] = FnContract(p, f)
+    world.loopspecs[('activeobject.LockingDeque.__wake_up', 1)] = _top_up_loop()
     world.loopspecs[('activeobject.LockingDeque.append', 1)] = _repair_loop('append-repair')
     world.loopspecs[('activeobject.LockingDeque.appendleft', 1)] = _repair_loop('appendleft-repair')
     world.loopspecs[('activeobject.LockingDeque.clear', 1)] = _clear_loop()
